@@ -62,7 +62,8 @@ fn run(input: RunInput) -> ScenFuture {
         let step_ms = w.param("backoff_step_ms", 100, 5_000) as u64;
         let max_ms = w.param("max_backoff_ms", 100, 15_000) as u64;
         let ct_ms = w.param("connect_timeout_ms", 500, 3_000) as u64;
-        let cap = w.param("inflight_cap", 1, 3) as usize;
+        // (mostly small, so that it binds; in part of the runs with room for every peer at once)
+        let cap = if w.flag("cap_leaves_room_for_everybody", 0.3) { w.param("large_inflight_cap", 6, 9) as usize } else { w.param("inflight_cap", 1, 3) as usize };
         let n_targets = w.param("targets", 2, 4) as usize;
         let n_ops = w.param("ops", 1, if w.tier == Tier::Quick { 40 } else { 100 }) as usize;
         let period = (interval_ms + jitter_ms) * MS;
@@ -395,6 +396,7 @@ fn run(input: RunInput) -> ScenFuture {
             }
         }
         let mut bg_attempts = 0u64;
+        let mut backoff_upper_checked = 0u64;
         let mut failed_attempts = 0u64;
         let next_tick_at_or_after = |t: u64| -> u64 {
             let d = t.saturating_sub(t_start);
@@ -476,6 +478,21 @@ fn run(input: RunInput) -> ScenFuture {
             if tick < unresolved_until[k] {
                 w.violate("background-dial-while-previous-unresolved", key.clone(), format!("attempt to t{k} at {} ms while the attempt before it cannot have resolved before {} ms", at / MS, unresolved_until[k] / MS));
                 continue;
+            }
+            // ... and not long after it either ("within min(max-backoff, k x backoff-step) ... of"):
+            // judged where nothing but the backoff can have held the attempt back - the cap leaves
+            // room for every peer at once, the entry has not changed since the failure was noticed,
+            // no explicit dial of the application's competes
+            if not_before[k] > 0 && fails[k].map(|f| f >= 1).unwrap_or(false) && cap >= n_targets + 2 && fillers.is_none() {
+                let due = next_tick_at_or_after(not_before[k]);
+                let quiet = !known_hist.iter().any(|(t, kk, _)| *kk == k && *t + period >= not_before[k].saturating_sub(backoff_ns(fails[k].unwrap_or(1), step_ms * MS, max_ms * MS)) && *t <= tick)
+                    && !explicit.iter().any(|(t, _)| *t + ct_ms * MS + period >= due && *t <= tick)
+                    && !blocked_hist.iter().any(|(t, kk, _)| *kk == k && *t + ct_ms * MS >= due.saturating_sub(period) && *t <= tick);
+                if quiet && tick > due + 2 * period {
+                    w.violate("background-dial-later-than-backoff", format!("k={:?}", fails[k]), format!("attempt to t{k} at {} ms although after {:?} consecutive failures (step {step_ms} ms, max {max_ms} ms) it was due at the tick at {} ms and nothing else held it back (cap {cap}, {n_targets} peers)", at / MS, fails[k], due / MS));
+                    continue;
+                }
+                backoff_upper_checked += 1;
             }
             if tick < not_before[k] {
                 w.violate("background-dial-before-backoff", format!("k={:?}", fails[k]), format!("attempt to t{k} at {} ms but after {:?} consecutive failures (step {step_ms} ms, max {max_ms} ms) none may start before {} ms", at / MS, fails[k], not_before[k] / MS));
@@ -627,6 +644,7 @@ fn run(input: RunInput) -> ScenFuture {
             w.mark_overlap();
         }
         w.probe_n("background-attempts", bg_attempts);
+        w.probe_n("backoff-upper-bound-checked", backoff_upper_checked);
         w.probe_n("failed-background-attempts", failed_attempts);
         w.sample("run", json!({"interval_ms": interval_ms, "jitter_ms": jitter_ms, "backoff_step_ms": step_ms, "max_backoff_ms": max_ms, "connect_timeout_ms": ct_ms, "cap": cap, "ops": ops_log,
             "attempts": attempts.iter().take(20).map(|(t, a)| format!("{} ms -> {a}", t / MS)).collect::<Vec<_>>()}));
